@@ -70,7 +70,7 @@ void * MRealloc(void * oldBuf, uint32 newSize)
 
 static c_status_t ReadData(const uint8 * inBuf, uint32 inputBufferBytes, uint32 * readOffset, void * copyTo, uint32 blockSize)
 {
-   if ((*readOffset + blockSize) > inputBufferBytes) return CB_ERROR;
+   if ((*readOffset > inputBufferBytes)||(blockSize > (inputBufferBytes-*readOffset))) return CB_ERROR;  /* written this way so the test can't be fooled by integer wrap-around */
    memcpy(copyTo, &inBuf[*readOffset], blockSize);
    *readOffset += blockSize;
    return CB_NO_ERROR;
@@ -972,6 +972,7 @@ c_status_t MMUnflattenMessage(MMessage * msg, const void * inBuf, uint32 inputBu
             {
                MByteBuffer ** bufs;
                numItems = B_LENDIAN_TO_HOST_INT32(numItems);
+               if (numItems > ((eLength-sizeof(uint32))/sizeof(uint32))) return CB_ERROR;  /* each item needs at least a length-prefix, so the field can't possibly hold that many */
                bufs = PutMMVariableFieldAux(msg, MFalse, tc, fieldName, numItems);
                if (bufs)
                {
